@@ -469,7 +469,20 @@ class Explorer:
         else:
             g = as_z3bool(goal)
         formulas = list(facts_pc) + [z3.Not(g)]
-        ax, _ = theory.instantiate(formulas)
+        # option noax_first_ms: first try without any pow2/bl axiom instance (sound: fewer assumptions); many
+        # obligations of callers of contracts follow by congruence alone and the axioms only slow them down
+        nf = self.current.opts.get('noax_first_ms') if self.current is not None else None
+        if nf and not skip_first:
+            s0 = z3.Solver()
+            s0.set('timeout', nf)
+            s0.set('arith.nl', False)      # products stay opaque terms: incomplete (unknown), never wrong about unsat
+            for f in formulas:
+                s0.add(f)
+            if s0.check() == z3.unsat:
+                self.stats['queries'] += 1
+                return 'unsat', time.time() - t0, 'z3-noax', None
+        # option light_theory: without the PP.split / S6q schemas (they add a new pow2 term per pair of pow2 terms)
+        ax, _ = theory.instantiate(formulas, heavy=not (self.current is not None and self.current.opts.get('light_theory')))
         s = z3.Solver()
         s.set('timeout', timeout_ms or self.timeout_ms)
         for f in formulas:
